@@ -1,4 +1,5 @@
-From TLXV Require Import C09.LoserTree C09.Spec.
+From TLXV Require Import C09.LoserTree C09.Spec C09.Instances.
 Require Extraction. Require ExtrOcamlBasic.
 Extraction Language OCaml.
-Extraction "../ocaml/gen/C09_model.ml" Spec.run_N Spec.check_N Spec.run_gN Spec.check_gN LoserTree.invalid_.
+Extraction "../ocaml/gen/C09_model.ml" Spec.run_N Spec.check_N Spec.run_gN Spec.check_gN
+  Instances.run_Ngt Instances.check_Ngt Instances.run_gNgt Instances.check_gNgt LoserTree.invalid_.
